@@ -2,6 +2,7 @@ package rules
 
 import (
 	"go/ast"
+	"go/token"
 	"go/types"
 	"strings"
 
@@ -123,6 +124,42 @@ func c07(c *Ctx) {
 	if recEdge == nil {
 		r.Fail("C07.D2", name, "non-nil edge of recover()", c.P.Pos(deferLit.Pos()), "no branch on the value returned by recover() found")
 		return
+	}
+	// D1b: the handler looks at the panic for every entry that is not already a message of death: any path from the start
+	// of the handler to a normal return that does not evaluate recover() has established msg.Type == MessageOfDeath
+	{
+		isRecover := func(x int) bool {
+			if lg.V[x].Node == nil {
+				return false
+			}
+			for _, call := range astx.Calls(lg.V[x].Node, false) {
+				if astx.Builtin(info, call) == "recover" {
+					return true
+				}
+			}
+			return false
+		}
+		modEdge := func(e *cfgx.Edge) bool {
+			if e.Cond == nil {
+				return false
+			}
+			for _, f := range cfgx.ExpandCond(e.Cond, e.Val) {
+				be, ok := ast.Unparen(f.Expr).(*ast.BinaryExpr)
+				if !ok || f.Tag != nil || (be.Op != token.EQL && be.Op != token.NEQ) {
+					continue
+				}
+				if !(refersTo(info, be.X, pathRobust, "MessageOfDeath") || refersTo(info, be.Y, pathRobust, "MessageOfDeath")) {
+					continue
+				}
+				if (be.Op == token.EQL) == f.Val {
+					return true
+				}
+			}
+			return false
+		}
+		skips := lg.Reach(lg.Entry, isRecover, modEdge)[lg.Exit]
+		r.Check(!skips, "C07.D1", name, "recover() is evaluated for every entry that is not already a message of death", c.P.Pos(deferLit.Pos()), "every path to the handler's normal end passes recover() or the msg.Type == MessageOfDeath edge",
+			"the deferred handler can return without calling recover() for an ordinary entry (e.g. the message-of-death test inverted): a panic while applying it is not intercepted, nothing is marked, and every node that replays the log dies at the same entry")
 	}
 	// no normal return after a recovered panic
 	reach := lg.Reach(recEdge.To, nil, nil)
